@@ -442,6 +442,31 @@ def job_extcfg(res, rng, w, home, job):
         res.nt("ext|%s|%s" % (job["override"], cells["name"]))
     res.count("extension_rows_checked", len(rows))
     res.cover("config_override", str(job["override"]))
+    if override:
+        # the same configuration handed over with -c / --config (path with upper-case letters and a blank) while $HOME holds
+        # the default one: it is the active configuration, so the rows are the same
+        cdir = os.path.join(w, "Conf Dir")
+        os.mkdir(cdir)
+        cpath = os.path.join(cdir, "My.Config.toml")
+        with open(cpath, "w") as f:
+            f.write(cfg)
+        q = "%s from e into list" % ", ".join(cols)
+        for opt in ("-c", "--config"):
+            r = runner.run([opt, cpath, q], cwd=w, home=h0)
+            res.ev()
+            ctx2 = {"args": [opt, cpath, q], "override": override, "result": r.brief()}
+            if r.verdict != "ok":
+                res.inc("watchdog")
+                continue
+            try:
+                rows2 = r.rows(len(cols))
+            except ValueError:
+                rows2 = None
+            if r.rc != 0 or r.err or rows2 is None or sorted(rows2) != sorted(rows):
+                res.viol("configuration given with `%s %s` is not the active one: status %s stderr %r, rows %s those under the same file as $HOME configuration" % (
+                    opt, os.path.relpath(cpath, w), r.rc, r.err[:120], "differ from" if rows2 is not None and sorted(rows2) != sorted(rows) else "equal"), ctx2)
+                continue
+            res.cover("config_route", opt)
 
 
 ZIP_TYPES = {"file": (stat.S_IFREG, "-"), "dir": (stat.S_IFDIR, "d"), "symlink": (stat.S_IFLNK, "l"), "fifo": (stat.S_IFIFO, "p"),
@@ -525,7 +550,7 @@ def main(chk):
     for lo in range(0, 4096, 512):
         jobs.append({"id": "permf%d" % lo, "kind": "perms", "seed": 0, "modes": allm[lo:lo + 512], "as_dirs": False})
     jobs.append({"id": "permd", "kind": "perms", "seed": 0, "modes": sorted(rng.sample(allm, 512)), "as_dirs": True})
-    for i in range(400 if quick else 1600):
+    for i in range(1600 if quick else 6400):
         jobs.append({"id": "tree%d" % i, "kind": "tree", "seed": job_seed(chk.seed, "C04", "t%d" % i), "fifo": i % 2 == 0})
     for i in range(24 if quick else 96):
         jobs.append({"id": "xattr%d" % i, "kind": "xattr", "seed": job_seed(chk.seed, "C04", "x%d" % i)})
